@@ -2,10 +2,13 @@
 // (and usable by C11 / C16 / C37 style checks).
 //
 // Everything here is a finite TABLE; nothing is random.  Dimensions:
-//   HOST     three small host trees built with mb::build (models.h):
+//   HOST     small host trees of 3 bodies built with mb::build (models.h):
 //              0  Free -> Ball -> Pin chain, quaternion coordinates
 //              1  the same tree with Euler-angle coordinates
 //              2  Cylinder -> {Gimbal, Slider} fork (every coordinate has qdot == u)
+//            thorough tier only (NHOST_ALL):
+//              3  Ball -> Free(reversed) and Pin(reversed) on Ground, quaternions
+//              4  Slider -> Universal -> Bushing-mobilizer chain (qdot == u, 6-dof tip)
 //   ELEM     every built-in non-contact force element of Simbody/include/simbody/internal/Force*.h
 //            plus three Force::Custom mirrors written from the Custom documentation
 //   PSET     2-4 parameter sets per element (incl. zero-damping / zero-stiffness / zero-magnitude sets)
@@ -35,8 +38,9 @@ namespace fm {
 using namespace SimTK;
 
 // ---------------------------------------------------------------- hosts
-enum { HostFBPq = 0, HostFBPe = 1, HostCGS = 2, NHOST = 3 };
-inline const char* hostName(int h) { static const char* n[] = {"Free>Ball>Pin/quat", "Free>Ball>Pin/euler", "Cylinder>{Gimbal,Slider}"}; return (h >= 0 && h < NHOST) ? n[h] : "?"; }
+enum { HostFBPq = 0, HostFBPe = 1, HostCGS = 2, NHOST = 3,          // the quick alphabet
+       HostBFPrev = 3, HostSUB = 4, NHOST_ALL = 5 };                  // two more trees for the thorough tier
+inline const char* hostName(int h) { static const char* n[] = {"Free>Ball>Pin/quat", "Free>Ball>Pin/euler", "Cylinder>{Gimbal,Slider}", "Ball>Free(rev),Pin(rev)/quat", "Slider>Universal>Bushing"}; return (h >= 0 && h < NHOST_ALL) ? n[h] : "?"; }
 inline bool hostEuler(int h) { return h == HostFBPe; }
 inline std::vector<mb::BodySpec> hostSpecs(int h) {
     mb::BodySpec a, b, c;
@@ -44,6 +48,14 @@ inline std::vector<mb::BodySpec> hostSpecs(int h) {
         a.kind = mb::KCylinder; a.frames = 3; a.mass = 0; a.parent = -1;
         b.kind = mb::KGimbal;   b.frames = 1; b.mass = 1; b.parent = 0;
         c.kind = mb::KSlider;   c.frames = 3; c.mass = 2; c.parent = 0;
+    } else if (h == HostBFPrev) {     // fork; reversed mobilizers
+        a.kind = mb::KBall; a.frames = 1; a.mass = 2; a.parent = -1;
+        b.kind = mb::KFree; b.frames = 3; b.mass = 0; b.parent = 0; b.dir = 1;
+        c.kind = mb::KPin;  c.frames = 3; c.mass = 1; c.parent = -1; c.dir = 1;
+    } else if (h == HostSUB) {        // chain; every coordinate has qdot == u; a 6-dof tip
+        a.kind = mb::KSlider;    a.frames = 2; a.mass = 1; a.parent = -1;
+        b.kind = mb::KUniversal; b.frames = 3; b.mass = 2; b.parent = 0;
+        c.kind = mb::KBushing;   c.frames = 1; c.mass = 0; c.parent = 1;
     } else {
         a.kind = mb::KFree; a.frames = 3; a.mass = 0; a.parent = -1;
         b.kind = mb::KBall; b.frames = 3; b.mass = 1; b.parent = 0;
@@ -57,15 +69,22 @@ inline const MobilizedBody& bodyOf(const mb::Model& M, int b) { return b < 0 ? (
 inline std::string bodyStr(int b) { return b < 0 ? std::string("G") : "b" + std::to_string(b); }
 
 // number of q's / u's of host body b (from the mobilizer definitions; checked against the State by checkHostTables)
-inline int hostNQ(int h, int b) { if (h == HostCGS) { static const int n[] = {2, 3, 1}; return n[b]; } static const int nq[] = {7, 4, 1}, ne[] = {6, 3, 1}; return hostEuler(h) ? ne[b] : nq[b]; }
-inline int hostNU(int h, int b) { if (h == HostCGS) { static const int n[] = {2, 3, 1}; return n[b]; } static const int n[] = {6, 3, 1}; return n[b]; }
+inline int hostNQ(int h, int b) {
+    static const int cgs[] = {2, 3, 1}, fq[] = {7, 4, 1}, fe[] = {6, 3, 1}, bfp[] = {4, 7, 1}, sub[] = {1, 2, 6};
+    return h == HostCGS ? cgs[b] : h == HostBFPrev ? bfp[b] : h == HostSUB ? sub[b] : hostEuler(h) ? fe[b] : fq[b];
+}
+inline int hostNU(int h, int b) {
+    static const int cgs[] = {2, 3, 1}, f[] = {6, 3, 1}, bfp[] = {3, 6, 1}, sub[] = {1, 2, 6};
+    return h == HostCGS ? cgs[b] : h == HostBFPrev ? bfp[b] : h == HostSUB ? sub[b] : f[b];
+}
 // (body, q) pairs for which qdot_i == u_i with the SAME mobilizer-local index: the documented precondition of
 // MobilityLinearSpring / MobilityLinearStop ("works only for coordinates q whose time derivatives are just the
 // corresponding generalized speed u").
 inline std::vector<std::pair<int, int> > coordsQdotIsU(int h) {
     if (h == HostCGS) return {{0, 0}, {0, 1}, {1, 0}, {1, 1}, {1, 2}, {2, 0}};
+    if (h == HostSUB) return {{0, 0}, {1, 0}, {1, 1}, {2, 0}, {2, 1}, {2, 2}, {2, 3}, {2, 4}, {2, 5}};
     if (h == HostFBPe) return {{0, 3}, {0, 4}, {0, 5}, {2, 0}};     // Free/Euler: translations q3..5 <-> u3..5 ; Pin
-    return {{2, 0}};                                                 // Free/quaternion has q4..6 <-> u3..5 (index shift): illegal
+    return {{2, 0}};                                                 // quaternion Free has q4..6 <-> u3..5 (index shift): illegal; Pin only
 }
 inline std::vector<std::pair<int, int> > coordsU(int h) { std::vector<std::pair<int, int> > v; for (int b = 0; b < 3; ++b) for (int i = 0; i < hostNU(h, b); ++i) v.push_back({b, i}); return v; }
 
@@ -100,8 +119,8 @@ inline int elemClass(int e) {
 inline bool elemIsCustom(int e) { return e == ECustomTwoPointSpring || e == ECustomTorquePair || e == ECustomOriginSpring; }
 inline int numParamSets(int e) {
     switch (e) {
-        case ETwoPointLinearDamper: case ELinearBushing: case EMobilityLinearStop: case EMobilityLinearDamper: case EGlobalDamper: return 3;
-        case EGravity: return 4;
+        case ETwoPointLinearDamper: case ELinearBushing: case EMobilityLinearDamper: case EGlobalDamper: return 3;
+        case EGravity: case EMobilityLinearStop: return 4;
         default: return 2;
     }
 }
@@ -285,8 +304,9 @@ inline Instance add(mb::Model& M, int host, int elem, int pset, int attachIndex)
         case EMobilityLinearStop:
             // the q tables of models.h contain values inside, above and below these bounds; d = 1.2 makes the
             // documented "no sticking" clamp (1 + d*qdot < 0) reachable with the u table
-            p.k = pset == 2 ? 0.0 : pset == 0 ? 100.0 : 40.0; p.d = pset == 1 ? 0.0 : 1.2;
-            p.qLow = pset == 0 ? -0.25 : -0.4; p.qHigh = pset == 0 ? 0.22 : 0.28;
+            // (pset 3: d = 3 so that both clamps are reached: needs |qdot| > 1/3 with the right sign while out of bounds)
+            p.k = pset == 2 ? 0.0 : pset == 0 ? 100.0 : pset == 1 ? 40.0 : 60.0; p.d = pset == 1 ? 0.0 : pset == 3 ? 3.0 : 1.2;
+            p.qLow = pset == 0 ? -0.25 : pset == 3 ? -0.22 : -0.4; p.qHigh = pset == 0 ? 0.22 : pset == 3 ? 0.2 : 0.28;
             I.force = Force::MobilityLinearStop(F, B1, MobilizerQIndex(a.coord), p.k, p.d, p.qLow, p.qHigh);
             break;
         case EMobilityLinearDamper:
